@@ -595,6 +595,12 @@ from prec import rule_printfields  # noqa: E402
 PROPERTIES["C15"]["rules"] += [("PRINTFIELDS", lambda ctx: rule_printfields(ctx.lib))]
 PROPERTIES["C15"]["explanation"] += " (PRINTFIELDS) The printer of struct definitions uses name, type-parameter list and fields; the printer of dimension expressions writes an exponent bare only under is_integer()."
 
+from prec import rule_readable  # noqa: E402
+
+for _pid in ("C15", "C16"):
+    PROPERTIES[_pid]["rules"] += [("READABLE", lambda ctx: rule_readable(ctx.lib))]
+    PROPERTIES[_pid]["explanation"] += " (READABLE) Every readable type created for a function definition is rendered from the function type instantiated with the user's type-parameter names (one known finding: where-clause locals)."
+
 NOT_APPLICABLE = {
     "C03": "numerical agreement of conversion factors over 500 units is a statement about run-time values; no structural clause is a necessary condition that is not already covered under C04/C11/C12 (static analysis cannot bound the arithmetic)",
     "C14": "a statement about the decimal rendering of every f64 under every format setting; the code delegates to pretty_dtoa/num_format and no structural clause of Number::pretty_print_with_dtoa_config can be decided without evaluating it",
